@@ -69,6 +69,10 @@ func main() {
 		os.Exit(2)
 	}
 	name := os.Args[1]
+	if name == "tabledump" {
+		tableDumpMain()
+		return
+	}
 	fs := flag.NewFlagSet(name, flag.ExitOnError)
 	tier := fs.String("tier", "quick", "quick|thorough")
 	seed := fs.Int64("seed", 1, "seed")
